@@ -18,7 +18,8 @@ PROPERTY = "C04"
 LEVEL = "exploration"
 SHARDS = {"quick": 4, "thorough": 16}
 REQUIRED = ["request-view-pairs", "response-recipe-pairs", "reused-object-pairs", "shortcut-pairs", "routing-pairs", "static-pairs"]
-RULE = ("Pairs (WSGI run, ASGI run) of the same abstract case. Request views: generated requests (methods, UTF-8 paths incl. non-ASCII, root paths, queries, header sets "
+RULE = ("Also 2-4 requests in flight together on one static app object, request methods other than GET / HEAD, header names that contain the CGI prefix. "
+        "Pairs (WSGI run, ASGI run) of the same abstract case. Request views: generated requests (methods, UTF-8 paths incl. non-ASCII, root paths, queries, header sets "
         "with Cookie / Accept / Content-Type+charset / Content-Length / Date / Referer / Host, JSON / urlencoded / multipart / raw bodies in several chunkings) -> 17 view "
         "fields each compared as value-or-exception-class. Responses: generated recipes of every response class x GET/HEAD x Range for files. Shortcuts: request_response, "
         "decorator and middleware stacks around recipes. Routing: Router tables (all convertors), nested Subpaths tables, Hosts tables with echoing leaves x generated "
@@ -145,6 +146,9 @@ HEADER_POOL = {
     "X-Custom": ["v", "caf\xe9", " padded ", ""],
     "Transfer-Encoding": ["chunked", "identity"],
     "User-Agent": ["verif/1.0"],
+    # header names that contain the text of the CGI prefix or of each other
+    "X-HTTP-Method-Override": ["PATCH"], "HTTP-X": ["1"], "X-Http-Http-Version": ["2"], "Http": ["bare"], "Content-Type-Options": ["nosniff"], "X-Content-Length": ["7"],
+    "Accept-Language": ["en, de;q=0.5"], "X-Forwarded-For": ["10.0.0.1, 10.0.0.2"], "Authorization": ["Basic dTpw"],
 }
 PATHS = ["/", "/a", "/a/b", "/é", "/a b", "/中文/x", "", "/a;b", "//x", "/%41"]
 QUERIES = ["", "a=1&b=2", "a=1&a=2&b", "é=1", "q=a+b%20c", "x=%ff", "&&=", "k=v;w"]
@@ -399,7 +403,7 @@ def check_static(ctx, rng, apps, validators):
             hdrs.append(("Range", rng.choice(["bytes=0-1", "bytes=1-"])))
     elif r < 0.6 and v:
         hdrs.append(("If-Modified-Since", rng.choice([v[1], "Wed, 21 Oct 2015 07:28:00 GMT", "Fri, 01 Jan 2100 00:00:00 GMT", "Sat, 01 Jan 2022 00:00:00 GMT"])))
-    method = rng.choice(["GET", "GET", "HEAD"])
+    method = rng.choice(["GET", "GET", "HEAD", "POST", "DELETE", "OPTIONS", "PUT", "PATCH"])
     req = drivers.Req(method=method, path=path.encode("utf-8"), headers=hdrs, query=rng.choice([b"", b"v=1"]))
     obs = {iface: observe(iface, apps[(iface, kind)], req) for iface in ("wsgi", "asgi")}
     compare(ctx, "static", {"app": kind, "path": path, "method": method, "headers": hdrs}, obs["wsgi"], obs["asgi"])
@@ -409,6 +413,26 @@ def check_static(ctx, rng, apps, validators):
         if "etag" in d:
             validators[(kind, path)] = (d["etag"], d.get("last-modified", ""))
     return (kind, path, method, repr(hdrs))
+
+
+def static_in_flight(ctx, rng, apps, validators):
+    """2-4 requests with assorted validators in flight together on one static app object: on either interface each client
+    gets what it gets alone (vf/inflight.py) - so the two interfaces stay equivalent under load as well"""
+    from vf import inflight
+    kind = rng.choice(["Files", "Pages"])
+    reqs, spec = [], []
+    for _ in range(rng.choice([2, 3, 4])):
+        path = rng.choice(STATIC_PATHS)
+        v = validators.get((kind, path))
+        hdrs = []
+        if v and rng.random() < 0.7:
+            hdrs = rng.choice([[("If-None-Match", v[0])], [("If-None-Match", '"other"')], [("If-Modified-Since", v[1])], [("If-Modified-Since", v[1]), ("If-None-Match", '"other"')],
+                               [("If-None-Match", v[0]), ("Range", "bytes=0-1")], [("Range", "bytes=1-2")]])
+        reqs.append(drivers.Req(path=path.encode("utf-8"), headers=hdrs))
+        spec.append((path, hdrs))
+    for iface in ("wsgi", "asgi"):
+        inflight.check_group(ctx, iface, apps[(iface, kind)], reqs, "static", {"app": kind, "in_flight_requests": spec})
+    return (kind, repr(spec))
 
 
 def check_reused(ctx, rec, reqs):
@@ -442,7 +466,7 @@ def run(ctx):
         hdrs = [("Range", rh)] if rh is not None else []
         if rec["cls"] == "File" and rng.random() < 0.2:
             hdrs.append(("If-Range", rng.choice(['"nope"', "", "Wed, 21 Oct 2015 07:28:00 GMT"])))
-        method = rng.choice(["GET", "GET", "HEAD"])
+        method = rng.choice(["GET", "GET", "GET", "HEAD", "HEAD", "POST", "DELETE", "OPTIONS", "PUT"])
         wrapper = rng.choice(["direct", "direct", "view", "decorator", "middleware", "decorator+middleware"])
         if rec["cls"] in ("PlainText", "HTML") and isinstance(rec["content"], bytes) and rng.random() < 0.5:
             rec["content_as"] = rng.choice(["bytearray", "memoryview"])  # other bytes-like objects as content
@@ -480,6 +504,8 @@ def run(ctx):
         key = check_static(ctx, rng, apps, validators)
         ctx.case(("static",) + key)
     ctx.sample("static", {"app": "Pages", "path": "/dir", "method": "GET", "headers": [("If-None-Match", "*")]})
+    for i in range(ctx.scale(60, 4000)):
+        ctx.case(("static-in-flight",) + static_in_flight(ctx, rng, apps, validators))
 
 
 def replay(ctx, case):
